@@ -4,9 +4,11 @@
    wire format (separators are code points 1 and 2, never data):
      env     = dats \1 infos \1 cinfos \1 chunks \1 flags      lists: decimal, comma separated
                flags: two letters T/F = atomic_cmd, keep_cmd
-     event   = kind \1 D \1 order \1 kill
+     event   = kind \1 D \1 order \1 kill \1 flag \1 decl \1 mfile
                kind: S setup, R setup --reconfigure, W setup --wipe, C configure, X external damage
                D: "k=v,k=v";  order: file codes, comma separated;  kill: "" (ran to its end) or decimal
+               flag: "T" = --native-file given (S, W) / --clearcache (C)
+               decl, mfile: the world of the event: declared defaults that differ from 0, machine-file values
                for X: D = file code, order = "T" (truncate) or "A" (delete)
      history = events separated by \2
    file codes: P meson-private/  J meson-info/  c coredata.dat  p .prev  t coredata.dat~  b build.dat
@@ -57,23 +59,28 @@ Definition parse_env (s : str) : env :=
   {| dats := parse_nums (nth_str 0 f); infos := parse_nums (nth_str 1 f);
      cinfos := parse_nums (nth_str 2 f); chunks := N.to_nat (digits_val (nth_str 3 f));
      atomic_cmd := match fl with 84 :: _ => true | _ => false end;
-     keep_cmd := match fl with [_; 84] => true | _ => false end |}.
+     keep_cmd := match fl with [_; 84] => true | _ => false end;
+     core_first := false |}.
 
+Definition flag_of (f : list str) : bool := match nth_str 4 f with [84] => true | _ => false end.
+Definition parse_world (decls mf : str) : world :=
+  {| decl := value (parse_D decls); mfile := parse_D mf |}.
+Definition world_of (f : list str) : world := parse_world (nth_str 5 f) (nth_str 6 f).
 Definition parse_cmd (f : list str) : cmd :=
   let D := parse_D (nth_str 1 f) in
   match nth_str 0 f with
-  | [83] => Setup D
+  | [83] => Setup D (flag_of f)
   | [82] => Reconf D
-  | [87] => Wipe D (map parse_file (split 44 (nth_str 2 f)))
-  | _ => Configure D
+  | [87] => Wipe D (flag_of f) (map parse_file (split 44 (nth_str 2 f)))
+  | _ => Configure D (flag_of f)
   end.
 Definition parse_event (s : str) : event :=
   let f := fields s in
   match nth_str 0 f with
   | [88] => Damage (parse_file (nth_str 1 f)) (match nth_str 2 f with [84] => true | _ => false end)
   | _ => match nth_str 3 f with
-         | [] => Ran (parse_cmd f)
-         | k => Killed (parse_cmd f) (N.to_nat (digits_val k))
+         | [] => Ran (world_of f) (parse_cmd f)
+         | k => Killed (world_of f) (parse_cmd f) (N.to_nat (digits_val k))
          end
   end.
 Definition parse_history (s : str) : list event := map parse_event (split 2 s).
@@ -94,12 +101,14 @@ Definition render_outcome (o : outcome) : str :=
   match o with Done => s2l "ok" | MesonErr => s2l "MesonException" | PyErr => s2l "PyErr" end.
 Definition render_vals (keys : list N) (l : alist) : str :=
   join [44] (map (fun k => N_dec k ++ [61] ++ N_dec (value l k)) keys).
+Definition render_store (keys : list N) (s : store) : str :=
+  join [44] (map (fun k => N_dec k ++ [61] ++ N_dec (s k)) keys).
 Definition render_fstate (keys : list N) (x : fstate) : str :=
   match x with
   | Absent => [65]
   | Torn => [84]
-  | Whole (CStore l) => 87 :: 123 :: render_vals keys l ++ [125]
-  | Whole (CRec r) => 87 :: 91 :: render_vals keys r ++ [93]
+  | Whole (CStore s) => 87 :: 123 :: render_store keys s ++ [125]
+  | Whole (CRec r nf) => 87 :: 91 :: render_vals keys r ++ [93] ++ (if nf then [110] else [])
   | Whole CBlob => [87]
   end.
 Definition universe (e : env) : list file :=
@@ -109,8 +118,8 @@ Definition render_state (e : env) (keys : list N) (st : fs) : str :=
   join [32] (map (fun f => file_code f ++ [61] ++ render_fstate keys (st f)) (universe e)).
 Definition render_followup (c : cmd) : str :=
   match c with Reconf _ => s2l "reconfigure" | _ => s2l "setup" end.
-Definition render_reported (keys : list N) (o : option alist) : str :=
-  match o with Some l => render_vals keys l | None => [45] end.
+Definition render_reported (keys : list N) (o : option store) : str :=
+  match o with Some l => render_store keys l | None => [45] end.
 
 Definition all_whole (e : env) (st : fs) : bool :=
   forallb (fun f => whole (st f)) (state_files e) && forallb (fun f => negb (exists_ (st f))) temp_files.
@@ -121,23 +130,26 @@ Definition run (fn : str) (args : list str) : str :=
   let e := parse_env (nth_str 0 args) in
   let st := run_history e (parse_history (nth_str 1 args)) in
   if str_eqb fn (s2l "ops") then
-    (* env, history, command -> outcome | op sequence *)
-    let c := parse_cmd (fields (nth_str 2 args)) in
-    let '(ops, out) := plan_of e c st in
+    (* env, history, command (with its world) -> outcome | op sequence *)
+    let f := fields (nth_str 2 args) in
+    let '(ops, out) := plan_of e (world_of f) (parse_cmd f) st in
     render_outcome out ++ BAR ++ join [32] (map render_op ops)
   else if str_eqb fn (s2l "crash") then
     (* env, history, command, k, keys -> crashed state | follow-up | its outcome | values it reports | all state files whole afterwards *)
-    let c := parse_cmd (fields (nth_str 2 args)) in
+    let f := fields (nth_str 2 args) in
+    let c := parse_cmd f in
+    let w := world_of f in
     let k := N.to_nat (digits_val (nth_str 3 args)) in
     let keys := parse_nums (nth_str 4 args) in
-    let st' := crash e k c st in
-    let '(out, st'') := recover e st' in
+    let st' := crash e w k c st in
+    let '(out, st'') := recover e w st' in
     render_state e keys st' ++ BAR ++ render_followup (followup st') ++ BAR ++ render_outcome out ++ BAR ++
-    render_reported keys (reported e st') ++ BAR ++ bool_str (all_whole e st'')
+    render_reported keys (reported e w st') ++ BAR ++ bool_str (all_whole e st'')
   else if str_eqb fn (s2l "state") then
-    (* env, history, keys -> state | follow-up | outcome | reported | whole afterwards *)
+    (* env, history, keys, decl, mfile -> state | follow-up | outcome | reported | whole afterwards *)
     let keys := parse_nums (nth_str 2 args) in
-    let '(out, st'') := recover e st in
+    let w := parse_world (nth_str 3 args) (nth_str 4 args) in
+    let '(out, st'') := recover e w st in
     render_state e keys st ++ BAR ++ render_followup (followup st) ++ BAR ++ render_outcome out ++ BAR ++
-    render_reported keys (reported e st) ++ BAR ++ bool_str (all_whole e st'')
+    render_reported keys (reported e w st) ++ BAR ++ bool_str (all_whole e st'')
   else s2l "?".
